@@ -1751,3 +1751,16 @@ def default_rng_summary(it, a, k):
             c.rng_log = []
         c.rng_log.append(g)
     return g
+
+
+@model(np.diag)
+def _npdiag(I, a, k):
+    """np.diag of a 1-D array: the square matrix with it on the diagonal, zeros elsewhere (k=0)"""
+    if not _anysym(a, k):
+        return NotImplemented
+    x = A.as_sarr(a[0])
+    if x.ndim != 1 or k.get("k", a[1] if len(a) > 1 else 0) != 0:
+        raise Unsupported("np.diag other than of a 1-D array with k=0")
+    xs = x.snapshot()
+    zero = z3.RealVal(0) if x.dtype.kind == "f" else z3.IntVal(0)
+    return SArr(x.dtype, (x.shape[0], x.shape[0]), lambda idx: z3.If(A.T(idx[0]) == A.T(idx[1]), xs((idx[0],)), zero))
